@@ -37,7 +37,7 @@ func ScalarShape(t *rapid.T, label string) (*big.Int, string) {
 		v.Mod(v, NM1)
 		v.Add(v, one)
 	case "lead00":
-		k := gen.Int(t, label+".zeros", 1, 31)
+		k := gen.Uniform(t, label+".zeros", 1, 31)
 		b := gen.RandBytes(r, 32-k)
 		if gen.Bool(t, label+".highbit") {
 			b[0] |= 0x80
@@ -77,7 +77,7 @@ func PrivKey(t *rapid.T, label string) (d *big.Int, enc []byte, cls string) {
 		}
 		enc = gen.Pad32(d)
 	case "lead00":
-		k := gen.Int(t, label+".zeros", 1, 31)
+		k := gen.Uniform(t, label+".zeros", 1, 31)
 		d = new(big.Int).SetBytes(gen.RandBytes(r, 32-k))
 		if d.Sign() == 0 {
 			d = big.NewInt(1)
@@ -253,7 +253,7 @@ func DrawSignCase(t *rapid.T) SignCase {
 		} else {
 			cd = cand{geN(t, "geN"), sm2ref.RejKGeN}
 		}
-		pos := gen.Int(t, "pos", 0, len(cands))
+		pos := gen.Uniform(t, "pos", 0, len(cands))
 		cands = append(cands[:pos], append([]cand{cd}, cands[pos:]...)...)
 	}
 	for _, cd := range cands {
@@ -330,7 +330,7 @@ func DrawVerifyCase(t *rapid.T) VerifyCase {
 	case "bitflip":
 		c.E, c.R, c.S = mk(gen.Bool(t, "shaped"))
 		f := gen.Int(t, "field", 0, 4)
-		bit := gen.Int(t, "bit", 0, 255)
+		bit := gen.Uniform(t, "bit", 0, 255)
 		tgt := [][]byte{c.Px, c.Py, c.E, c.R, c.S}[f]
 		tgt = append([]byte(nil), tgt...)
 		tgt[bit>>3] ^= 0x80 >> uint(bit&7)
